@@ -307,7 +307,11 @@ func deepLocks(root *ssa.Function, d deepInstr) lockset {
 		}
 	} else {
 		// a deferred closure of the frame: it runs at the frame's exits; only the outer locks are certain
-		for k, v := range locksIn(d.in.Parent(), lockset{})[d.in] {
+		entry2 := lockset{}
+		if curCtx != nil && d.in.Parent().Parent() != nil {
+			entry2 = entryLocks(curCtx, d.in.Parent(), 0) // a literal handed to a lock wrapper runs under the wrapper's locks
+		}
+		for k, v := range locksIn(d.in.Parent(), entry2)[d.in] {
 			out[k] = v
 		}
 	}
